@@ -39,12 +39,78 @@ def make_duplicate(rng, t):
   return True
 
 
+SPECIAL = ['+x', '(1)', '[2]', '+', '(a)b', '[0]x', '+(b)', ']', '(', '[a-z]']
+
+
+def decorate_ids(rng, t, rate=0.35):
+  """leaf / wrapped-device ids with characters that Device accepts and that are special in regular
+  expressions: + ( ) [ ]   (DeviceSet ids stay [a-z0-9_-]). Ids stay unique (the counter stays inside)."""
+  k = 0
+  for b in gen.tree_leaves(t):
+    if rng.random() < rate:
+      b['id'] = b['id'] + rng.choice(SPECIAL); k += 1
+  return k
+
+
+def separator_sibling(rng, t):
+  """make a sibling leaf whose id is `<child id><sep><grandchild id>` with sep in '_' '-', next to a nested set /
+  adaptor `<child id>` that has a leaf / conduit `<grandchild id>`: `root.load_e` and `root.load.e` both exist and
+  differ only in the separator. Returns True when done."""
+  cands = []
+  def walk(x):
+    if x['k'] != 'node':
+      return
+    for ci, c in enumerate(x['ch']):
+      subs = list(c['flows']) if c['k'] == 'mf' else ([g['id'] for g in c['ch'] if g['k'] != 'node'] if c['k'] == 'node' else [])
+      if subs:
+        cands.append((x, ci, subs))
+      walk(c)
+  walk(t)
+  if not cands:
+    return False
+  x, ci, subs = rng.choice(cands)
+  new_id = x['ch'][ci]['id'] + rng.choice(['_', '_', '-']) + rng.choice(subs)
+  if any(c['id'] == new_id for c in x['ch']):
+    return False
+  sib = [i for i, c in enumerate(x['ch']) if c['k'] == 'leaf' and i != ci]
+  before = [i for i in sib if i < ci]
+  if before and rng.random() < 0.8:
+    x['ch'][rng.choice(before)]['id'] = new_id
+  elif len(x['ch']) < 3 or not sib:
+    leaf = copy.deepcopy(rng.choice([b for b in gen.tree_leaves(t) if b['k'] == 'leaf'] or [None]))
+    if leaf is None:
+      return False
+    leaf['id'] = new_id
+    x['ch'].insert(ci if rng.random() < 0.8 else ci + 1, leaf)
+  else:
+    x['ch'][rng.choice(sib)]['id'] = new_id
+  return True
+
+
+def lookup_names(labels):
+  """names to look up: every dot-boundary suffix of every label, plus tails that start inside a component."""
+  out = []
+  for lab in labels:
+    parts = lab.split('.')
+    for j in range(len(parts)):
+      out.append('.'.join(parts[j:]))
+    for m in (1, 2, 3, 5, 8):
+      if m < len(lab):
+        out.append(lab[-m:])
+  seen, res = set(), []
+  for x in out:
+    if x not in seen:
+      seen.add(x); res.append(x)
+  return res
+
+
 class C13(Prop):
   id = 'C13'
   lean_module = 'DK.Props.C13'
   theorems = ['DK.C13.' + t for t in THEOREMS]
   rule = ('random rooted ordered trees (depth <= 3 quick / 4 thorough, fan-out <= 3, nested sets, MFDeviceSet / TwoRatioMFDeviceSet adaptors with 1..3 '
-          'conduits, SubBalancedDeviceSet nodes), horizon 1..6 (..10); flow matrices flat and shaped; non-trivial: some node has children with '
+          'conduits, SubBalancedDeviceSet nodes), horizon 1..6 (..10); leaf ids with the regex-special characters Device accepts (+ ( ) [ ]); sibling pairs '
+          '`x_e` / `x.e` that differ only in the separator; flow matrices flat and shaped; non-trivial: some node has children with '
           'different row counts, at least one adaptor, all rows of the flow matrix pairwise different')
   sizes = {'quick': 400, 'thorough': 10000}
   assumptions = ['get / find are checked by the oracle only (the model has no regular expressions); the theorems cover labels and map',
@@ -53,7 +119,7 @@ class C13(Prop):
   dup_rate = float(os.environ.get('VERIF_C13_DUP', '0.05'))
 
   def __init__(self):
-    self.stats = {'cases': 0, 'mf': 0, 'asymmetric': 0, 'distinct_rows': 0, 'duplicate_ids': 0, 'depth': {}, 'rows': {},
+    self.stats = {'cases': 0, 'mf': 0, 'asymmetric': 0, 'distinct_rows': 0, 'duplicate_ids': 0, 'special_ids': 0, 'separator_siblings': 0, 'get_lookups': 0, 'get_ambiguous': 0, 'depth': {}, 'rows': {},
                   'ownership_rows_perturbed': 0, 'ownership_rows_observed': 0}
 
   def cases(self, rng, tier, count):
@@ -74,6 +140,12 @@ class C13(Prop):
       else:
         S = gen.tree_flow(rng, t, n)
       case = {'tree': t, 'n': n, 'S': S}
+      if rng.random() < 0.45 and separator_sibling(rng, t):
+        case['sep'] = True
+        if len(case['S']) != gen.tree_rows(t):     # a leaf was inserted: one more row
+          case['S'] = X.perm_flow(gen.tree_rows(t), n)
+      if decorate_ids(rng, t, rng.choice([0.0, 0.3, 0.6])):
+        case['special'] = True
       if rng.random() < self.dup_rate and make_duplicate(rng, t):
         case['dup'] = True
       out.append(case)
@@ -82,7 +154,7 @@ class C13(Prop):
   def _note(self, case):
     t = case['tree']; st = self.stats
     st['cases'] += 1; st['mf'] += gen.tree_has(t, 'mf'); st['asymmetric'] += X.asymmetric(t); st['distinct_rows'] += X.distinct_rows(case['S'])
-    st['duplicate_ids'] += bool(case.get('dup'))
+    st['duplicate_ids'] += bool(case.get('dup')); st['special_ids'] += bool(case.get('special')); st['separator_siblings'] += bool(case.get('sep'))
     for k, v in (('depth', gen.tree_depth(t)), ('rows', gen.tree_rows(t))):
       st[k][str(v)] = st[k].get(str(v), 0) + 1
 
@@ -203,17 +275,31 @@ class C13(Prop):
           if len(fnd) != len(hits) or any(a is not exp_objs[i] for a, i in zip(fnd, hits)):
             fail(kind, "find('.*%s$') returns %s; the leaves whose label ends with %r are rows %s %s" % (re.escape(suf), ids(fnd), suf, hits, [exp_labels[i] for i in hits]))
             break
-          if len(hits) == 1 and dev.get(suf) is not exp_objs[k]:
-            fail(kind, 'get(%r) does not return the leaf object of row %d (%s)' % (suf, k, lab)); break
           if j == 0 and exp_labels.count(lab) == 1:
             one = dev.find(re.escape(lab) + '$')
             if len(one) != 1 or one[0] is not exp_objs[k]:
               fail(kind, 'find(%r) returns %s, expected exactly the leaf of row %d' % (re.escape(lab) + '$', ids(one), k)); break
-          elif j == 0 and dev.get(lab) is not exp_objs[exp_labels.index(lab)] and dupes:
+          elif j == 0 and dupes and dev.get(lab) is not exp_objs[exp_labels.index(lab)]:
             fail(kind, 'get(%r): two rows (%s) carry this qualified id; get returns the object of the later row, find returns one object for both, '
                        'dict(map(S)) keeps one row' % (lab, [i for i, l in enumerate(exp_labels) if l == lab])); break
     except Exception as e:
       fail(kind, 'get/find raised %s: %s' % (type(e).__name__, str(e)[:160]))
+    # get(name): plain qualified-id suffix (str.endswith), first match in leaf order -- names with '.', '+', '(', '[' ... included
+    for name in lookup_names(exp_labels):
+      if fails:
+        break
+      hits = [i for i, l in enumerate(exp_labels) if l.endswith(name)]
+      self.stats['get_lookups'] += 1; self.stats['get_ambiguous'] += len(hits) > 1
+      try:
+        got = dev.get(name)
+      except Exception as e:
+        fail(kind, 'get(%r) raised %s: %s although the label(s) of row(s) %s %s end with it (all labels: %s)'
+             % (name, type(e).__name__, str(e)[:80], hits, [exp_labels[i] for i in hits], exp_labels))
+        break
+      if got is not exp_objs[hits[0]]:
+        where_got = [i for i, o in enumerate(exp_objs) if o is got]
+        fail(kind, 'get(%r) returns the leaf of row %s (%s); the first leaf whose qualified id ends with %r is row %d (%s) (all labels: %s)'
+             % (name, where_got, [exp_labels[i] for i in where_got], name, hits[0], exp_labels[hits[0]], exp_labels))
     return fails[:2]
 
   def nontrivial(self, case):
